@@ -166,9 +166,9 @@ Props/C08.vos Props/C08.vok Props/C08.required_vos: Props/C08.v Base/Prelude.vos
 Props/C06.vo Props/C06.glob Props/C06.v.beautified Props/C06.required_vo: Props/C06.v Model/Conc.vo Proofs/PickFlipProofs.vo Base/Prelude.vo Base/Wrap.vo Model/Hash.vo Model/Strategy.vo Proofs/HashProofs.vo Proofs/StrategyProofs.vo
 Props/C06.vio: Props/C06.v Model/Conc.vio Proofs/PickFlipProofs.vio Base/Prelude.vio Base/Wrap.vio Model/Hash.vio Model/Strategy.vio Proofs/HashProofs.vio Proofs/StrategyProofs.vio
 Props/C06.vos Props/C06.vok Props/C06.required_vos: Props/C06.v Model/Conc.vos Proofs/PickFlipProofs.vos Base/Prelude.vos Base/Wrap.vos Model/Hash.vos Model/Strategy.vos Proofs/HashProofs.vos Proofs/StrategyProofs.vos
-Props/C05.vo Props/C05.glob Props/C05.v.beautified Props/C05.required_vo: Props/C05.v Base/Prelude.vo Base/Wrap.vo Model/Hash.vo Model/Strategy.vo Proofs/StrategyProofs.vo
-Props/C05.vio: Props/C05.v Base/Prelude.vio Base/Wrap.vio Model/Hash.vio Model/Strategy.vio Proofs/StrategyProofs.vio
-Props/C05.vos Props/C05.vok Props/C05.required_vos: Props/C05.v Base/Prelude.vos Base/Wrap.vos Model/Hash.vos Model/Strategy.vos Proofs/StrategyProofs.vos
+Props/C05.vo Props/C05.glob Props/C05.v.beautified Props/C05.required_vo: Props/C05.v Base/Prelude.vo Base/Wrap.vo Model/Hash.vo Model/Strategy.vo Proofs/StrategyProofs.vo Proofs/WrrBoundProofs.vo
+Props/C05.vio: Props/C05.v Base/Prelude.vio Base/Wrap.vio Model/Hash.vio Model/Strategy.vio Proofs/StrategyProofs.vio Proofs/WrrBoundProofs.vio
+Props/C05.vos Props/C05.vok Props/C05.required_vos: Props/C05.v Base/Prelude.vos Base/Wrap.vos Model/Hash.vos Model/Strategy.vos Proofs/StrategyProofs.vos Proofs/WrrBoundProofs.vos
 Props/C13.vo Props/C13.glob Props/C13.v.beautified Props/C13.required_vo: Props/C13.v Base/Prelude.vo Model/Strategy.vo Model/LB.vo Proofs/LBProofs.vo Proofs/AccountingProofs.vo
 Props/C13.vio: Props/C13.v Base/Prelude.vio Model/Strategy.vio Model/LB.vio Proofs/LBProofs.vio Proofs/AccountingProofs.vio
 Props/C13.vos Props/C13.vok Props/C13.required_vos: Props/C13.v Base/Prelude.vos Model/Strategy.vos Model/LB.vos Proofs/LBProofs.vos Proofs/AccountingProofs.vos
@@ -187,12 +187,12 @@ Props/C03.vos Props/C03.vok Props/C03.required_vos: Props/C03.v Base/Prelude.vos
 Props/C10.vo Props/C10.glob Props/C10.v.beautified Props/C10.required_vo: Props/C10.v Base/Prelude.vo Base/Bytes.vo Model/Strategy.vo Model/LB.vo Model/Admin.vo Proofs/AdminProofs.vo
 Props/C10.vio: Props/C10.v Base/Prelude.vio Base/Bytes.vio Model/Strategy.vio Model/LB.vio Model/Admin.vio Proofs/AdminProofs.vio
 Props/C10.vos Props/C10.vok Props/C10.required_vos: Props/C10.v Base/Prelude.vos Base/Bytes.vos Model/Strategy.vos Model/LB.vos Model/Admin.vos Proofs/AdminProofs.vos
-Props/C14.vo Props/C14.glob Props/C14.v.beautified Props/C14.required_vo: Props/C14.v Base/Prelude.vo Model/RespWriter.vo Proofs/WriterProofs.vo Proofs/GzipProofs.vo Proofs/SizeLimitProofs.vo
-Props/C14.vio: Props/C14.v Base/Prelude.vio Model/RespWriter.vio Proofs/WriterProofs.vio Proofs/GzipProofs.vio Proofs/SizeLimitProofs.vio
-Props/C14.vos Props/C14.vok Props/C14.required_vos: Props/C14.v Base/Prelude.vos Model/RespWriter.vos Proofs/WriterProofs.vos Proofs/GzipProofs.vos Proofs/SizeLimitProofs.vos
-Props/C15.vo Props/C15.glob Props/C15.v.beautified Props/C15.required_vo: Props/C15.v Base/Prelude.vo Model/RespWriter.vo Proofs/WriterProofs.vo Proofs/GzipProofs.vo
-Props/C15.vio: Props/C15.v Base/Prelude.vio Model/RespWriter.vio Proofs/WriterProofs.vio Proofs/GzipProofs.vio
-Props/C15.vos Props/C15.vok Props/C15.required_vos: Props/C15.v Base/Prelude.vos Model/RespWriter.vos Proofs/WriterProofs.vos Proofs/GzipProofs.vos
+Props/C14.vo Props/C14.glob Props/C14.v.beautified Props/C14.required_vo: Props/C14.v Base/Prelude.vo Model/RespWriter.vo Proofs/WriterProofs.vo Proofs/GzipProofs.vo Proofs/SizeLimitProofs.vo Gen/SizeLimitGen.vo Proofs/SizeLimitRefine.vo
+Props/C14.vio: Props/C14.v Base/Prelude.vio Model/RespWriter.vio Proofs/WriterProofs.vio Proofs/GzipProofs.vio Proofs/SizeLimitProofs.vio Gen/SizeLimitGen.vio Proofs/SizeLimitRefine.vio
+Props/C14.vos Props/C14.vok Props/C14.required_vos: Props/C14.v Base/Prelude.vos Model/RespWriter.vos Proofs/WriterProofs.vos Proofs/GzipProofs.vos Proofs/SizeLimitProofs.vos Gen/SizeLimitGen.vos Proofs/SizeLimitRefine.vos
+Props/C15.vo Props/C15.glob Props/C15.v.beautified Props/C15.required_vo: Props/C15.v Base/Prelude.vo Model/RespWriter.vo Proofs/WriterProofs.vo Proofs/GzipProofs.vo Gen/GzipGen.vo Proofs/GzipRefine.vo
+Props/C15.vio: Props/C15.v Base/Prelude.vio Model/RespWriter.vio Proofs/WriterProofs.vio Proofs/GzipProofs.vio Gen/GzipGen.vio Proofs/GzipRefine.vio
+Props/C15.vos Props/C15.vok Props/C15.required_vos: Props/C15.v Base/Prelude.vos Model/RespWriter.vos Proofs/WriterProofs.vos Proofs/GzipProofs.vos Gen/GzipGen.vos Proofs/GzipRefine.vos
 Props/C16.vo Props/C16.glob Props/C16.v.beautified Props/C16.required_vo: Props/C16.v Base/Prelude.vo Base/Bytes.vo Model/Proxy.vo Proofs/ProxyProofs.vo
 Props/C16.vio: Props/C16.v Base/Prelude.vio Base/Bytes.vio Model/Proxy.vio Proofs/ProxyProofs.vio
 Props/C16.vos Props/C16.vok Props/C16.required_vos: Props/C16.v Base/Prelude.vos Base/Bytes.vos Model/Proxy.vos Proofs/ProxyProofs.vos
@@ -241,3 +241,18 @@ Proofs/HealthRefine.vos Proofs/HealthRefine.vok Proofs/HealthRefine.required_vos
 Proofs/ListingProofs.vo Proofs/ListingProofs.glob Proofs/ListingProofs.v.beautified Proofs/ListingProofs.required_vo: Proofs/ListingProofs.v Base/Prelude.vo Model/Conc.vo Proofs/ConcProofs.vo
 Proofs/ListingProofs.vio: Proofs/ListingProofs.v Base/Prelude.vio Model/Conc.vio Proofs/ConcProofs.vio
 Proofs/ListingProofs.vos Proofs/ListingProofs.vok Proofs/ListingProofs.required_vos: Proofs/ListingProofs.v Base/Prelude.vos Model/Conc.vos Proofs/ConcProofs.vos
+Gen/SizeLimitGen.vo Gen/SizeLimitGen.glob Gen/SizeLimitGen.v.beautified Gen/SizeLimitGen.required_vo: Gen/SizeLimitGen.v Base/Prelude.vo Model/RespWriter.vo
+Gen/SizeLimitGen.vio: Gen/SizeLimitGen.v Base/Prelude.vio Model/RespWriter.vio
+Gen/SizeLimitGen.vos Gen/SizeLimitGen.vok Gen/SizeLimitGen.required_vos: Gen/SizeLimitGen.v Base/Prelude.vos Model/RespWriter.vos
+Gen/GzipGen.vo Gen/GzipGen.glob Gen/GzipGen.v.beautified Gen/GzipGen.required_vo: Gen/GzipGen.v Base/Prelude.vo Model/RespWriter.vo
+Gen/GzipGen.vio: Gen/GzipGen.v Base/Prelude.vio Model/RespWriter.vio
+Gen/GzipGen.vos Gen/GzipGen.vok Gen/GzipGen.required_vos: Gen/GzipGen.v Base/Prelude.vos Model/RespWriter.vos
+Proofs/SizeLimitRefine.vo Proofs/SizeLimitRefine.glob Proofs/SizeLimitRefine.v.beautified Proofs/SizeLimitRefine.required_vo: Proofs/SizeLimitRefine.v Base/Prelude.vo Model/RespWriter.vo Gen/SizeLimitGen.vo
+Proofs/SizeLimitRefine.vio: Proofs/SizeLimitRefine.v Base/Prelude.vio Model/RespWriter.vio Gen/SizeLimitGen.vio
+Proofs/SizeLimitRefine.vos Proofs/SizeLimitRefine.vok Proofs/SizeLimitRefine.required_vos: Proofs/SizeLimitRefine.v Base/Prelude.vos Model/RespWriter.vos Gen/SizeLimitGen.vos
+Proofs/GzipRefine.vo Proofs/GzipRefine.glob Proofs/GzipRefine.v.beautified Proofs/GzipRefine.required_vo: Proofs/GzipRefine.v Base/Prelude.vo Model/RespWriter.vo Gen/GzipGen.vo
+Proofs/GzipRefine.vio: Proofs/GzipRefine.v Base/Prelude.vio Model/RespWriter.vio Gen/GzipGen.vio
+Proofs/GzipRefine.vos Proofs/GzipRefine.vok Proofs/GzipRefine.required_vos: Proofs/GzipRefine.v Base/Prelude.vos Model/RespWriter.vos Gen/GzipGen.vos
+Proofs/WrrBoundProofs.vo Proofs/WrrBoundProofs.glob Proofs/WrrBoundProofs.v.beautified Proofs/WrrBoundProofs.required_vo: Proofs/WrrBoundProofs.v Base/Prelude.vo Base/Wrap.vo Model/Hash.vo Model/Strategy.vo Proofs/StrategyProofs.vo Proofs/FailoverProofs.vo
+Proofs/WrrBoundProofs.vio: Proofs/WrrBoundProofs.v Base/Prelude.vio Base/Wrap.vio Model/Hash.vio Model/Strategy.vio Proofs/StrategyProofs.vio Proofs/FailoverProofs.vio
+Proofs/WrrBoundProofs.vos Proofs/WrrBoundProofs.vok Proofs/WrrBoundProofs.required_vos: Proofs/WrrBoundProofs.v Base/Prelude.vos Base/Wrap.vos Model/Hash.vos Model/Strategy.vos Proofs/StrategyProofs.vos Proofs/FailoverProofs.vos
